@@ -38,6 +38,30 @@ func init() {
 			libEffects[pname] = [2]bool{true, false}
 		}
 	}
+	for _, n := range []string{"errors.New", "fmt.Errorf"} {
+		n := n
+		libModels[n] = func(tr *FnTr, x ssa.Value, args []Val, cc *ssa.CallCommon) Val {
+			tr.usedModel(n + " (returns a non-nil error, touches no visible memory)")
+			t := tr.vc.Fresh("err", SInt)
+			tr.vc.Assume(Lt(Int(0), t))
+			return Val{L: []*Term{t}}
+		}
+		libEffects[n] = [2]bool{false, true}
+	}
+	// functions whose only effect visible to the verified code is a fresh result
+	for _, n := range []string{"fmt.Sprint", "fmt.Sprintf", "fmt.Sprintln", "fmt.Print", "fmt.Printf", "fmt.Println",
+		"encoding/hex.EncodeToString", "strconv.Itoa", "strconv.FormatInt", "strconv.FormatUint", "strings.Repeat",
+		"time.Now", "(time.Time).Unix", "(time.Time).UnixNano", "time.Since"} {
+		n := n
+		libModels[n] = func(tr *FnTr, x ssa.Value, args []Val, cc *ssa.CallCommon) Val {
+			tr.usedModel(n + " (fresh result, no effect on visible memory)")
+			if x == nil {
+				return Val{}
+			}
+			return tr.freshVal(tr.vname(x), x.Type(), nil)
+		}
+		libEffects[n] = [2]bool{false, true}
+	}
 	libModels["bytes.Equal"] = func(tr *FnTr, x ssa.Value, args []Val, cc *ssa.CallCommon) Val {
 		tr.usedModel("bytes.Equal")
 		return Val{L: []*Term{tr.bytesEqual(args[0], args[1])}}
